@@ -22,7 +22,7 @@ BOUNDS = dict(
                star="symbolic k: a 3-parameter box in general position (all groups); 6 one-parameter lines k0+t*d, |t|<=1/16, through Gamma and a zone-boundary point (order <= 16); "
                     "2 planes and 2 three-parameter boxes at Gamma / zone boundary (order <= 4)"),
     thorough=dict(groups="all 32 point groups, their grey groups and 12 black-white groups", tensors="as quick", pairs="all pairs (g,h) for groups of order <= 24, generators + 3 further elements x whole group above",
-                  transforms="11 (TR,Inv) Transform combinations", star="as quick plus 16 lines through 4 high-symmetry points for every group, 6 planes and 4 boxes for order <= 4, and 64 boxes of half width 1/8 tiling "
+                  transforms="11 (TR,Inv) Transform combinations", star="as quick plus 16 lines through 4 high-symmetry points for every group of order <= 16 and the 4 lines through Gamma for the larger groups (Th: 3, without the generic direction), 6 planes and 4 boxes for order <= 4, and 64 boxes of half width 1/8 tiling "
                        "[-1/2,1/2]^3 for Ci, C2v and 22'2'"))
 EXPLANATION = ("Groups are built by the real PointGroup.__init__ from concrete generators; closure, identity, inverses, orthogonality and lattice invariance are decided "
                "by running the real __mul__/__eq__/transform_reduced_vector on the exact rational values of the stored doubles. The real transform_tensor, symmetrize_tensor, "
@@ -589,7 +589,8 @@ def star_regions(tier, order, gname=""):
         # 24..96 operations: a line through a high-symmetry point crosses O(order^2) tolerance cells; the four-line chunks of the smaller groups ran past
         # 1500 s each (41 timeouts in the first thorough run), and single lines through
         # (1/2,0,0) still did (Oh); the big groups get the four lines through Gamma, one per case
-        return [generic] + [l for l in lines if l[0] == (0, 0, 0)]
+        # (the generic direction (1,2,3) through Gamma ran past 1500 s for Th alone in the sizing run: left out there)
+        return [generic] + [l for l in lines if l[0] == (0, 0, 0) and not (gname.startswith("Th") and l[1][0] == (1, 2, 3))]
     out = [generic] + lines
     if order <= 4:
         cs = [Fr(i, 4) - H + Fr(1, 8) for i in range(4)]
